@@ -87,17 +87,18 @@ Proof.
 Qed.
 Print Assumptions C12_common_type_exact.
 
-(* the converting constructor participates exactly when the source period is an integer multiple
-   of the target period, and then converts exactly *)
+(* the converting constructor participates exactly when the source period is a representable
+   integer multiple of the target period ([time.duration.cons]: "no overflow is induced in the
+   conversion" and the quotient of the periods has denominator 1), and then converts exactly *)
 Theorem C12_converting_constructor : forall w1 n1 d1 w2 n2 d2,
   rep_ok w1 = true -> rep_ok w2 = true -> period_ok n1 d1 = true -> period_ok n2 d2 = true ->
-  n1 * d2 <= max64 -> d1 * n2 <= max64 ->
-  convertible_m (Dur w1 n1 d1) (Dur w2 n2 d2) = Val ((n1 * d2) mod (d1 * n2) =? 0)
+  convertible_m (Dur w1 n1 d1) (Dur w2 n2 d2)
+  = Val (((n1 * d2) mod (d1 * n2) =? 0) && ((n1 * d2) / (d1 * n2) <=? max64))
   /\ forall c, (n1 * d2) mod (d1 * n2) = 0 -> cast_ok w1 n1 d1 w2 n2 d2 c = true ->
        conv_m (Dur w1 n1 d1) (Dur w2 n2 d2) c = Val (cast_spec n1 d1 n2 d2 c)
        /\ cast_spec n1 d1 n2 d2 c * (d1 * n2) = c * n1 * d2.
 Proof.
-  intros w1 n1 d1 w2 n2 d2 Hw1 Hw2 Hp1 Hp2 Ha Hb. split.
+  intros w1 n1 d1 w2 n2 d2 Hw1 Hw2 Hp1 Hp2. split.
   - apply convertible_m_spec; assumption.
   - intros c He Hc. apply conv_m_spec; assumption.
 Qed.
